@@ -44,6 +44,10 @@ func showToks(ts []lexm.Tok) string {
 type Classify func(run *ev.Run, info lexm.Info, ref []lexm.Tok) bool
 
 // Eval runs all cases in one batch.
+// AfterErrors: compare the streams beyond the first lexical error as well (reference: RefLexer.LexOn).
+// C07 sets it: what it states about @push_mode / @pop_mode holds after an error too.
+var AfterErrors bool
+
 func Eval(run *ev.Run, cases []*Case, count bool, classify Classify) ([]Verdict, error) {
 	lc := make([]*lbatch.Case, len(cases))
 	for i, c := range cases {
@@ -68,7 +72,13 @@ func Eval(run *ev.Run, cases []*Case, count bool, classify Classify) ([]Verdict,
 		ref := lexm.NewRef(c.S)
 		for k, in := range c.Inputs {
 			want, info := ref.Lex(in)
+			if AfterErrors {
+				want, info = ref.LexOn(in)
+			}
 			r := o.Results[k]
+			if count && info.Errors > 0 {
+				run.Class("inputs:lexing-continued-after-an-error")
+			}
 			if count {
 				run.Eval(1)
 				if classify != nil && classify(run, info, want) {
@@ -90,7 +100,7 @@ func Eval(run *ev.Run, cases []*Case, count bool, classify Classify) ([]Verdict,
 						vs[i] = Verdict{Has: true, Bad: in, Kind: "text", Detail: fmt.Sprintf("input %q: token text %q is not the input slice %q", in, t.Str, in[t.Lo:t.Lo+t.Len])}
 					}
 				}
-				if t.T == 0 || t.T == 1 {
+				if t.T == 0 || t.T == 1 && !AfterErrors {
 					break
 				}
 			}
